@@ -23,7 +23,10 @@ func typeQualifier(p *types.Package) string {
 	case modPath:
 		return "storethehash"
 	}
-	return p.Name()
+	if strings.HasPrefix(p.Path(), modPath+"/") {
+		return p.Name()
+	}
+	return p.Path()
 }
 
 func shortType(t types.Type) string { return types.TypeString(t, typeQualifier) }
@@ -561,6 +564,23 @@ func errValues(call *ssa.Call) map[ssa.Value]bool {
 	for _, s := range seeds {
 		out[s] = true
 		closeOverCells(s, out)
+	}
+	// a shared `err` variable assigned on several branches becomes a phi; on a
+	// path that passed this call the phi IS this call's error
+	for changed := true; changed; {
+		changed = false
+		for v := range out {
+			refs := v.Referrers()
+			if refs == nil {
+				continue
+			}
+			for _, r := range *refs {
+				if phi, ok := r.(*ssa.Phi); ok && !out[phi] && isErrorType(phi.Type()) {
+					out[phi] = true
+					changed = true
+				}
+			}
+		}
 	}
 	return out
 }
